@@ -260,3 +260,49 @@ def Z2Rank(M, nr, nc):
                 basis[h] = v
                 break
     return len(basis)
+
+
+# ---------------------------------------------------------------- boolean-mask indexing (local gates: gs[:, mask2])
+@spec('int1', 'int', ret='int1', abstract=True)
+def MaskIdx(m, n):
+    # positions c < n with m[c] != 0, in increasing order  (what numpy's a[:, m] selects)
+    return [c for c in range(n) if m[c] != 0]
+
+
+@spec('int1', 'int', abstract=True)
+def MaskCnt(m, n):
+    return sum(1 for c in range(n) if m[c] != 0)
+
+
+@spec('int1', 'int', ret='int1', abstract=True)
+def MaskPos(m, n):
+    # MaskPos[c] = number of selected positions before c  (the column of the compressed array that c maps to, if selected)
+    out, k = [], 0
+    for c in range(n):
+        out.append(k)
+        k += 1 if m[c] != 0 else 0
+    return out
+
+
+@spec('int1', ret='int1')
+def Repeat2(m):
+    # numpy.repeat(m, 2)
+    return [m[c // 2] for c in range(2 * len(m))]
+
+
+@spec('int1', 'int1', 'int', ret='int1')
+def Compress(row, m, n):
+    # row[m] for a boolean mask m of length n
+    return [row[MaskIdx(m, n)[k]] for k in range(MaskCnt(m, n))]
+
+
+@spec('int1', 'int', 'int')
+def InQ(q, n, c):
+    # 1 if c is among q[0..n), else 0
+    return 0 if n <= 0 else (1 if q[n - 1] == c else InQ(q, n - 1, c))
+
+
+@spec('int1', 'int', 'int', ret='int1')
+def QMask(q, nq, N):
+    # utils.mask(qubits, N): boolean vector over N qubits, true at the listed qubits
+    return [InQ(q, nq, c) for c in range(N)]
